@@ -311,40 +311,83 @@ FEW_CORNERS_TEXT = ("%s builds a bounding box from %d transformed point(s) and n
 
 
 def box_constructors(prog):
-    """who builds AABBs in bemodel.  Returns (unknown constructors, [(constructor, transformed points, loc)] with positive evidence of too few corners).
-    WallGeom::aabb and AABB::join are decided by C13's accumulator rule; AABB::new and Default only store their arguments."""
-    from .mir import callee_name, pl_local
-    makers = set()
-    for f_ in prog.fns.values():
-        if f_.crate != "bemodel" or f_.raw.get("impl_derived"):
-            continue
+    """who builds AABBs in bemodel.  Returns (unknown constructors, [(function, transformed points, loc)] with positive evidence of too few corners).
+    WallGeom::aabb and AABB::join are decided by C13's accumulator rule; AABB::new, Default and any loop-free helper that only combines its own
+    arguments (AABB::from_corners(a, b)) just store what they are given: for those the functions that call them are examined instead."""
+    from .mir import callee_name, callee_of, pl_local
+
+    def constructs(f_):
         for b_, i_, s_ in f_.body.statements():
             if s_["s"] == "assign" and s_["rv"]["r"] == "agg" and s_["rv"].get("adt", "").endswith("aabb::AABB"):
-                makers.add(prog.root_of(f_).path)
+                return True
+        return any((callee_name(t_) or "").endswith("aabb::AABB::new") for b_, t_ in f_.body.calls())
+
+    def transforms(f_):
+        body_ = f_.body
+        loop_blocks = set()
+        for lp in body_.loops().values():
+            loop_blocks |= set(lp)
+        tp_in, tp_out = 0, 0
+        for b_, t_ in body_.calls():
+            nm_ = callee_name(t_) or ""
+            if "ops::Mul" in nm_ and len(t_["args"]) == 2:
+                tys = [body_.local_ty(pl_local(a.get("m", a.get("c")))) if isinstance(a, dict) and ("m" in a or "c" in a) else "" for a in t_["args"]]
+                if any("Isometry" in x or "Matrix" in x or "Transform" in x for x in tys[:1]) and "OPoint" in tys[1]:
+                    if b_ in loop_blocks:
+                        tp_in += 1
+                    else:
+                        tp_out += 1
+        return tp_in, tp_out, bool(loop_blocks)
+    fns = [f_ for f_ in prog.fns.values() if f_.crate == "bemodel" and not f_.raw.get("impl_derived") and f_.root == f_.id]
+    makers = {f_.id: f_ for f_ in fns if constructs(f_)}
+    decided = {fid for fid, f_ in makers.items() if f_.path.endswith(("aabb::AABB::join",)) or ("Bounded for types::opaques::WallGeom" in f_.path and f_.path.endswith("::aabb"))}
+    storing = {fid for fid, f_ in makers.items() if f_.path.endswith(("aabb::AABB::new", "as std::default::Default>::default"))}
+    # loop-free helpers without coordinate transformations: they combine their arguments, the caller decides which points go in
+    for fid, f_ in makers.items():
+        if fid in decided or fid in storing:
+            continue
+        tin, tout, has_loop = transforms(f_)
+        if not has_loop and tin == 0 and tout == 0:
+            storing.add(fid)
+    examine = {}
+    for fid, f_ in makers.items():
+        if fid not in storing:
+            examine[fid] = f_
+    for f_ in fns:
         for b_, t_ in f_.body.calls():
-            if (callee_name(t_) or "").endswith("aabb::AABB::new"):
-                makers.add(prog.root_of(f_).path)
-    known = {m for m in makers if m.endswith(("aabb::AABB::new", "aabb::AABB::join", "as std::default::Default>::default")) or
-             ("Bounded for types::opaques::WallGeom" in m and m.endswith("::aabb"))}
-    unknown = sorted(makers - known)
-    few = []
-    for m in list(unknown):
-        for f_ in prog._by_path.get(m, []):
-            body_ = f_.body
-            loop_blocks = set()
-            for lp in body_.loops().values():
-                loop_blocks |= set(lp)
-            tp_in, tp_out = 0, 0
-            for b_, t_ in body_.calls():
-                nm_ = callee_name(t_) or ""
-                if "ops::Mul" in nm_ and len(t_["args"]) == 2:
-                    tys = [body_.local_ty(pl_local(a.get("m", a.get("c")))) if isinstance(a, dict) and ("m" in a or "c" in a) else "" for a in t_["args"]]
-                    if any("Isometry" in x or "Matrix" in x or "Transform" in x for x in tys[:1]) and "OPoint" in tys[1]:
-                        if b_ in loop_blocks:
-                            tp_in += 1
-                        else:
-                            tp_out += 1
-            if tp_in == 0 and 0 < tp_out < 4:
-                few.append((m, tp_out, f_.loc()))
-                unknown.remove(m)
-    return unknown, few
+            c = callee_of(t_)
+            if c and (c.get("rid") or c["id"]) in storing and not (c.get("rid") or c["id"]).endswith("::default") and f_.id not in storing:
+                examine[f_.id] = f_
+    unknown, few = [], []
+    for fid, f_ in sorted(examine.items()):
+        tin, tout, has_loop = transforms(f_)
+        if tin == 0 and 0 < tout < 4:
+            few.append((f_.path, tout, f_.loc()))
+        elif fid not in decided and not f_.path.endswith("aabb::AABB::join"):
+            # BVH node boxes are joins of element boxes; anything else that assembles a box from points is not understood
+            if tin == 0 and tout == 0 and not constructs(f_):
+                continue
+            if fid in makers:
+                unknown.append(f_.path)
+    return sorted(set(unknown)), few
+
+
+def occluder_polygon_test_unconditional(prog):
+    """Occluder::intersects: once the bounding box is hit the polygon test runs unconditionally.  -> (extra conditions, loc) ; ([], loc) when fine;
+    None when the method does not have the box-then-polygon shape"""
+    from .mir import callee_name
+    occ = prog.method("&energy::raytracing::occluder::Occluder", "Intersectable", "intersects")
+    body = occ.body
+    calls = [(b, t, callee_name(t) or "") for b, t in body.calls()]
+    box = [(b, t) for b, t, nm in calls if nm.endswith("Intersectable>::intersects") and "AABB" in nm]
+    poly = [(b, t) for b, t, nm in calls if nm.endswith("intersects_with_data")]
+    if len(box) != 1 or len(poly) != 1:
+        return None
+    osc = Scope(prog, occ)
+    extra = []
+    for (_, d_, n_, tk_) in osc.conditions(poly[0][0]):
+        n_ = strip(n_)
+        if n_[0] == "discr" and "branch(" in show(n_):
+            continue
+        extra.append("%s is %s" % (show(n_)[:60], tk_))
+    return extra, occ.loc(poly[0][1].get("ln"))
